@@ -15,7 +15,10 @@ Inductive query :=
 | QReconv (r : list string)
 | QKcuts (n : string) (k : nat) (ords : list (string * list string)) (r : res (list (list string)))
 | QFail (what : string).                                                (* a set-valued query raised an exception *)
-Inductive case := CQ (nodes : list (string * gtype * bool * list string)) (qs : list query).
+Inductive case :=
+| CQ (nodes : list (string * gtype * bool * list string)) (qs : list query)
+(* query - edit - query history on one Circuit object: per phase the graph as dumped at that moment and the answers given then *)
+| CH (phases : list (list (string * gtype * bool * list string) * list query)).
 
 (* a Python set, reported as a sorted list *)
 Definition seteq (s : gset string) (r : list string) : bool := bool_decide (NoDup r ∧ s = list_to_set r).
@@ -43,7 +46,11 @@ Definition agree_q (c : circuit) (q : query) : bool :=
   | QKcuts n k ords r => bool_decide (kcuts c n k (qord_of ords) = rmap (fmap list_to_set) r)
   | QFail _ => false
   end.
-Definition agree (k : case) : bool := match k with CQ nodes qs => let c := mk_g nodes in forallb (agree_q c) qs end.
+Definition agree (k : case) : bool :=
+  match k with
+  | CQ nodes qs => let c := mk_g nodes in forallb (agree_q c) qs
+  | CH phases => forallb (λ p, let c := mk_g p.1 in forallb (agree_q c) p.2) phases
+  end.
 
 (* ---- the graph-theoretic definition, evaluated on the same graph, against what the implementation returned.
    tfi / tfo / depth_table / is_cyclic / is_topo_order / reconvergent are the executable forms of the definitions
@@ -85,4 +92,8 @@ Definition holds_q (c : circuit) (q : query) : bool :=
       end
   | QFail _ => false
   end.
-Definition holds (k : case) : bool := match k with CQ nodes qs => let c := mk_g nodes in closedb c && forallb (holds_q c) qs end.
+Definition holds (k : case) : bool :=
+  match k with
+  | CQ nodes qs => let c := mk_g nodes in closedb c && forallb (holds_q c) qs
+  | CH phases => forallb (λ p, let c := mk_g p.1 in closedb c && forallb (holds_q c) p.2) phases
+  end.
